@@ -21,7 +21,7 @@ EXPLANATION = (
     "REINFORCE, DQN and SAC) has Low outputs that depend only on Low inputs, checked function by function under callee summaries; "
     "hence the returned policy is the same function of (env, policy, hyper-parameters, key) for every callback set. C11.4 the policy "
     "passed in is never mutated (no attribute/item assignment, setattr or __dict__ access on a parameter) and learn returns the policy "
-    "field of the final state. NOT decided: bit-identity of two XLA executions; 'different keys yield different runs'."
+    "field of the final state. C11.11 no jit-decorated entry point donates its argument buffers (the caller's policy and key stay usable). NOT decided: bit-identity of two XLA executions; 'different keys yield different runs'."
 )
 ASSUMPTIONS = [
     "JAX/XLA executes a traced program deterministically for fixed inputs (bit-identity of two executions is not decided)",
@@ -267,7 +267,39 @@ def check(s):
                      P.loc(m, fn), key="pinned-width", detail="; ".join(pinned), necessary_for="training is unaffected by observers in every configuration (an observer whose carried state changes dtype under 64-bit mode makes learn raise)")
     if n10 == 0:
         raise AnalysisError("C11.10: no callback method found")
-    for r_, n_ in (("C11.1", 250), ("C11.2", 20), ("C11.3", 50), ("C11.4", 250), ("C11.5", 4), ("C11.6", 50), ("C11.8", 1), ("C11.9", 6), ("C11.10", 30)):
+    # ---------------------------------------------------------------- C11.11 no entry point donates its argument buffers: a decorated function is
+    # called with the caller's own arrays (learn with the caller's policy and key); `donate=` / `donate_argnums=` on its jit lets XLA
+    # reuse those buffers, so the policy passed in is deleted under the caller (purity) and a second run from the same arguments raises
+    n11 = 0
+
+    def donating(tree, mod=None):
+        out = []
+        for fn_ in _ast.walk(tree):
+            if not isinstance(fn_, (_ast.FunctionDef, _ast.AsyncFunctionDef)):
+                continue
+            for d in fn_.decorator_list:
+                for c in _ast.walk(d):
+                    if isinstance(c, _ast.Call):
+                        for kw in c.keywords:
+                            if kw.arg in ("donate", "donate_argnums", "donate_argnames") and not (isinstance(kw.value, _ast.Constant) and kw.value.value in ("none", None, ())) \
+                                    and not (isinstance(kw.value, _ast.Tuple) and not kw.value.elts):
+                                out.append((fn_, f"line {c.lineno}: {kw.arg}={_ast.unparse(kw.value)}"))
+        return out
+
+    if len(donating(_ast.parse("import equinox as eqx\n@eqx.filter_jit(donate='all-except-first')\ndef learn(self, policy): return policy\n"))) != 1:
+        raise AnalysisError("C11.11: the positive control (a donating decorator) is not recognised")
+    s.controls.append("C11.11 positive control: @eqx.filter_jit(donate='all-except-first') is recognised as donating")
+    for m in sorted(P.modules.values(), key=lambda m_: m_.name):
+        hits = donating(m.tree)
+        decorated = [f_ for f_ in _ast.walk(m.tree) if isinstance(f_, (_ast.FunctionDef, _ast.AsyncFunctionDef)) and f_.decorator_list]
+        for f_ in decorated:
+            if not any("jit" in _ast.unparse(d) or "pmap" in _ast.unparse(d) for d in f_.decorator_list):
+                continue
+            n11 += 1
+            mine = [t for g, t in hits if g is f_]
+            s.ob("C11.11", f"{m.name.replace('lerax.', '')}.{f_.name}", not mine, "a jit-compiled entry point does not donate its argument buffers (the caller's policy, key and environment stay usable)",
+                 P.loc(m, f_), key="donated-arguments", detail="; ".join(mine), necessary_for="the policy passed in is never mutated; the same arguments give the same run again")
+    for r_, n_ in (("C11.11", 4), ("C11.1", 250), ("C11.2", 20), ("C11.3", 50), ("C11.4", 250), ("C11.5", 4), ("C11.6", 50), ("C11.8", 1), ("C11.9", 6), ("C11.10", 30)):
         s.floor(r_, n_)
 
 
